@@ -1,13 +1,13 @@
 CONSTANT P = 5
 CONSTANT ALPHA = 3
 CONSTANT GEN = 2
-CONSTANT DropKind = "poseidon"
-CONSTANT DropIdx = 9
-CONSTANT Cases <- CasesPoseidon
+CONSTANT DropKind = "none"
+CONSTANT DropIdx = 0
+CONSTANT Cases <- CasesUniq
 CONSTANT Sel = {}
 CONSTANT DegShift = 0
 INIT InitRows
 NEXT NextRows
 INVARIANT Satisfied
-INVARIANT PinnedInv
+INVARIANT UniqueInv
 CHECK_DEADLOCK FALSE
